@@ -20,11 +20,13 @@ func init() {
 			{ID: "C10-R4", Doc: "merging readers (cogroup, reduce, sort) repair their heap after every cursor move (shared)", Run: c10r4},
 			{ID: "C10-R8", Doc: "a merge heap is heapified after it has been filled (shared)", Run: c10r8},
 			{ID: "C10-R9", Doc: "a merge cursor moves only past a row that was taken (shared)", Run: c10r9},
+			{ID: "C17-R9", Doc: "a pump loop ends exactly at end-of-stream (shared)", Run: c17r9},
 			{ID: "C05-R7", Doc: "memoised compilations are keyed by every partitioning field (shared)", Run: c05r7},
 			{ID: "C05-R8", Doc: "partition buffering loses, duplicates and misplaces no row (shared)", Run: c05r8},
 			{ID: "C01-R3", Doc: "operator row loops visit every row read exactly once, at its own index, and write it at the next free output row", Run: c01r3},
 			{ID: "C17-R5", Doc: "end-of-stream is produced only at the sanctioned sites, under their recorded conditions: a reader that still holds rows does not end (shared)", Run: c17r5},
 			{ID: "C17-R6", Doc: "rows returned together with end-of-stream (or nil) are never dropped (shared)", Run: c17r6},
+			{ID: "C05-R9", Doc: "driver and worker agree on one location per dependency task (shared)", Run: c05r9},
 		},
 	})
 }
